@@ -565,7 +565,7 @@ impl Run {
                 self.meta.oracle_fail(&format!("a FAILING call changed observable behaviour at call {ci}: {}", first_diff(&prev_obs, &obs)), None, json!({"calls": jcalls}));
                 return;
             }
-            if failed {
+            if failed && (is_glob || cur_glob.is_some()) {
                 // remembered glob and from_glob marks: both clones reload the same directory now
                 self.reload_probes += 1;
                 self.meta.oracle_checks += 1;
@@ -585,8 +585,12 @@ impl Run {
             }
             // fresh instances given the resulting set: one sorted raw batch; one glob load of a
             // directory holding exactly the set
+            // (after a failing call the observation equals the previous one, which was compared)
             let sorted: Vec<(String, String)> = set.iter().map(|(n, s)| (n.clone(), s.clone())).collect();
             for which in ["sorted batch", "glob load"] {
+                if failed {
+                    break;
+                }
                 let mut fresh = Tera::default();
                 fresh.autoescape_on(self.sufs[cur_sufs].clone());
                 self.meta.oracle_checks += 1;
@@ -1105,12 +1109,12 @@ fn main() {
             }
         }
         // --- same-name variants: loaded by one glob and replaced through a reload, with a bad
-        // file next to them or not (quick: a quarter, thorough: all)
+        // file next to them or not (quick: every 7th pair, thorough: every 2nd)
         let mut vk = 0usize;
         for a in variants {
             for b in variants {
                 vk += 1;
-                if !thorough && vk % 7 != 0 {
+                if (thorough && vk % 2 != 0) || (!thorough && vk % 7 != 0) {
                     continue;
                 }
                 let fail = match vk % 5 {
@@ -1127,7 +1131,7 @@ fn main() {
             }
         }
         // --- random histories over all call kinds
-        let kg = if thorough { 1000 } else { 100 };
+        let kg = if thorough { 600 } else { 100 };
         let good_g = [0usize, 1, 2, 4, 5, 6, 24, 25, 26, 27, 28, 29, 30, 31, 32, 34];
         for _ in 0..kg {
             let len = 3 + rng.below(8);
